@@ -31,7 +31,8 @@ META = {
         'text': 'daemons loaded from generated ini files and driven through '
                 '1-8 seeded edits (add / remove watcher, numprocesses only, '
                 'cmd, env sections, other options, options absent from the '
-                'defaults, reverts, no-op rewrites), each followed by a '
+                'defaults, reverts, no-op rewrites, a managed socket '
+                'section and edits of it), each followed by a '
                 'waiting reloadconfig; after every reload, at quiescence, '
                 'the daemon is compared with a fresh daemon started on the '
                 'same file in a second simulator universe (watcher set, '
